@@ -1,4 +1,5 @@
-import Norad.Lemmas.C18Doc
+import Norad.Lemmas.C18SpecRead
+import Norad.Lemmas.C18Codec
 /-!
 # C18 — saving and loading a designspace document preserves it
 
@@ -121,15 +122,80 @@ example (c : Codec) : WellFormed c sampleDoc = true := by
     simp [DatesPrintable, sampleDoc, kvsDates, pvDates, pvsDates]
   simp [WellFormed, h1, h2, h3]
 
-/- OPEN (statement kept, not proved in the time available; the driver evaluates `Spec.specRead` on the tree
-   xml.etree reads from every saved file and demands the original document — 3 000 cases per quick run):
+/- Full strength (`XmlSafe` dropped) is FALSE on the tree: quick-xml writes tab, CR, LF and the characters
+   XML forbids as they are (findings `attr-whitespace-unescaped`, `text-cr-unescaped`,
+   `forbidden-char-written`).  `Spec.conformView` is what a conforming XML 1.0 processor reads from such
+   output (line-end and attribute-value normalisation, `none` = not well-formed). -/
 
-   theorem ds_spec_reader_finds_values {c : Codec} (L : CodecLaws c) (d : Doc)
-       (h : (StatedWF d && DatesPrintable c d) = true) :
-       (toTree c d).map (Spec.specRead c) = .ok (some d)
+/-- **ds_spec_reader_finds_values**: for a well-formed document whose strings are `XmlSafe`, a conforming XML
+    processor reads the written tree unchanged, and the independent reader `Spec.specRead` — which knows
+    only the designspace specification's element and attribute names and Apple's plist DTD, walks paths,
+    does not trim, checks the root element — finds exactly the original document in it. -/
+theorem ds_spec_reader_finds_values {c : Codec} (L : CodecLaws c) (d : Doc) (h : WellFormed c d = true)
+    (hx : XmlSafe d = true) :
+    (toTree c d).map (fun t => (conformView t).bind (specRead c)) = .ok (some d) := by
+  have hwf := h
+  simp only [WellFormed, StatedWF, DatesPrintable, LibTextClean, Bool.and_eq_true, Bool.not_eq_true',
+    List.isEmpty_eq_false_iff, List.all_eq_true] at h
+  obtain ⟨⟨⟨⟨⟨⟨⟨⟨⟨hf, hax⟩, haxs⟩, hru⟩, hso⟩, hsos⟩, hins⟩, hlib⟩, hd1, hd2⟩, hc1, hc2⟩ := h
+  obtain ⟨insts, i1, _, _, _⟩ := instances_rt L d.instances
+    (fun i hi => ⟨(hins i hi).1, (hins i hi).2, hc1 i hi, hd1 i hi⟩)
+  obtain ⟨ls, l1, _, _, _⟩ := lib_rt L d.lib hlib hc2 hd2
+  have ht : toTree c d = .ok (.elem "designspace" (mkAttrs [("format", some (c.showF32 d.format))])
+      (topChildren c d insts ls)) := by
+    simp only [toTree, i1, l1, Out.bind]; rfl
+  have hp := conformView_plain _ (toTree_plain L d _ hx ht)
+  have hs := spec_doc L d insts ls hf hax haxs (by simpa [List.all_eq_true] using hru) hsos hso
+    (fun i hi => ⟨(hins i hi).1, (hins i hi).2⟩) hlib i1 l1
+  rw [ht]
+  simp only [Out.map, hp, Option.bind_some, hs]
 
-   (no `LibTextClean` guard: the specification reader does not trim).  The proof is the analogue of
-   `ds_roundtrip` over the independent helpers `kids`/`get`/`optionAll`/`plistDict`. -/
+/-- the independent reader does not need the `LibTextClean` guard on the tree itself: on `toTree d` (before
+    any file-level effect) it finds the document also when lib strings start or end with blanks -/
+theorem ds_spec_reader_no_trim (c : Codec) :
+    (serializeWithin c (.str "  a ")).map (plistObject c) = .ok (some (.str "  a ")) := by
+  simp [serializeWithin, valueInner, Out.map, plistObject, leafText]
+
+/-- finding `attr-whitespace-unescaped`: without `XmlSafe` the statement is false — a conforming processor
+    reads the attribute value `"We\tig\nht"` as `"We ig ht"` -/
+theorem ds_spec_reader_counterexample_attr : normAttr "We\tig\nht" = "We ig ht" := by decide
+
+/-- finding `text-cr-unescaped`: CR and CR LF in text are read as LF -/
+theorem ds_spec_reader_counterexample_cr : normText "a\rb\r\nc" = "a\nb\nc" := by decide
+
+/-- finding `forbidden-char-written`: the written tree is not XML at all -/
+theorem ds_spec_reader_counterexample_forbidden (n : String) :
+    conformView (.elem n [("filename", "a\x01b")] []) = none := by
+  have : hasForbidden "a\x01b" = true := by decide
+  simp [conformView, normAttrs, this]
+
+/-- non-vacuity: the sample document is `XmlSafe` -/
+example : XmlSafe sampleDoc = true := by decide
+
+/-! ## the codec hypothesis is satisfiable -/
+
+/-- **codec_laws_satisfiable**: `CodecLaws` holds of `refCodec`, whose integer part (`Int.repr`,
+    `String.toInt?` + the `i64`/`u64` range tests) and base64 part (`b64enc`/`b64dec`) are the functions the
+    driver runs against the strings Rust wrote.  Its float and date parts are stand-ins (injective decimal
+    renderings): for Rust's shortest-round-trip `Display` of `f32`/`f64` and the `time` crate's RFC 3339
+    formatting the laws REMAIN HYPOTHESES, checked by the driver on every string of every case. -/
+theorem codec_laws_satisfiable : ∃ c : Codec, CodecLaws c := ⟨refCodec, codecLaws_refCodec⟩
+
+/-- the integer law, for the real implementation: every `i64` and every `u64` survives `to_string` →
+    `IntWrapper` (i64 first, then u64; no `0x` prefix) -/
+theorem int_codec_roundtrip (i : Int) (h1 : i64Min ≤ i) (h2 : i ≤ u64Max) :
+    readIntText refCodec (intShow i) = some i := readIntText_show codecLaws_refCodec i h1 h2
+
+/-- the base64 law, for the real implementation, all byte strings -/
+theorem base64_roundtrip (bs : List UInt8) : b64dec (b64enc bs) = some bs := b64_rt bs
+
+/-- the document theorems instantiated: no hypothesis about the codec is left -/
+theorem ds_roundtrip_refCodec (d : Doc) (h : WellFormed refCodec d = true) :
+    saveLoad refCodec d = .ok (some d) := ds_roundtrip codecLaws_refCodec d h
+
+/-- non-vacuity with a date and data in the lib -/
+example : WellFormed refCodec { sampleDoc with lib := .cons "d" (.date ⟨0, 5⟩) (.cons "b" (.data [255, 0, 7]) .nil) } = true := by
+  decide
 
 /-- non-vacuity: the guards hold of a lib with every value type -/
 example (c : Codec) : kvsStated (.cons "s" (.str "a b") (.cons "i" (.int (-5)) (.cons "r" (.real ⟨0⟩)
